@@ -50,6 +50,8 @@ def run(ctx):
     storage.append_order_in_dependency(ctx, s)
     storage.growth_monotone(ctx, s)
     storage.no_cached_map_pointers(ctx, s)
+    storage.recorded_length_is_file_length(ctx, s)
+    storage.reopen_validates_marker(ctx, s)
 
 
 def reloc(ctx, s):
